@@ -403,3 +403,5 @@ MANIFEST = {
             "argument, a view of it or cached state is measured per op family by the oracle (alias signatures), not modelled in "
             "Lean; ops with hand-written backward (GRU) are covered by the oracle only.",
 }
+
+MANIFEST_ADDENDUM = 'Oracle additions: where-masked pass-through ufuncs among the op families; tensors derived from one that holds a gradient (copy, deepcopy, astype, tensor(x), astensor, views): editing one gradient changes the other only if the tensors share memory.'
